@@ -8,6 +8,7 @@ import CookModel.Lemmas.StdMetaMap
 import CookModel.Side.StdMetaBuilt
 import CookModel.Lemmas.BuilderSound
 import CookModel.Lemmas.StdMetaAttached
+import CookModel.Lemmas.FrontMatter
 /-
   C13  Standard metadata values are interpreted as documented.
 
@@ -473,5 +474,74 @@ example : parseTimeWithUnits german ['1','.','5','s','t','d',' ','2','0',' ','m'
     parseTimeWithUnits emptyConv ['1','.','5','h',' ','2','0',' ','m','i','n'] = some 110 := by decide +kernel
 
 end C13Examples
+
+/-! ### the front-matter loop of the analysis (`process_frontmatter`, Analysis/FrontMatterCore.lean) -/
+
+/-- **What `process_frontmatter` makes of a decoded mapping with the default options** (no
+    `metadata_validator`): the mapping is stored unchanged, and the report is, in mapping order, one
+    "Unsupported value for key" warning for exactly the entries the C13 model rejects
+    (`FM.entryWarning`: the key is a string naming a standard key and `check_std_entry` refuses the value,
+    `entryWarns`; labelled with the key line), followed by the "Time overriden" warning if any.  No other
+    diagnostic, nothing removed. -/
+theorem C13_front_matter_report {α : Type} [Arith α] (fe : FM.Env α) (hv : fe.validator = none) (yaml : Text)
+    (m : List (Y × Y)) (hd : fe.decode yaml.text = .ok m) :
+    (FM.processFrontmatter fe yaml).map = some m ∧
+    (FM.processFrontmatter fe yaml).diags =
+      m.flatMap (FM.entryWarning fe yaml.span.start yaml.text) ++ FM.timeWarn yaml.span.start yaml.text m := by
+  obtain ⟨e1, e2⟩ := FM.fmx_entries_noValidator fe hv yaml.span.start yaml.text m
+  unfold FM.processFrontmatter
+  rw [hd]
+  simp only [e1, e2]
+  trivial
+
+/-- **`C13_metadata_warning_iff_nothing` for an entry of the front matter.**  Let `m` be the decoded
+    mapping and `v` the value `Metadata::get` finds under the canonical name of the standard key `k`.
+    Then that entry IS an entry of the mapping the loop visits, and the loop pushes the warning
+    "Unsupported value for key" for it (one warning, severity warning, analysis stage, labelled with the
+    key line) exactly when the `Metadata` accessor reading `k` over the stored mapping returns nothing;
+    it pushes nothing for it exactly when the accessor returns something.  With
+    `C13_front_matter_report` (the report is the concatenation over the entries and the stored mapping is
+    `m`) this is the clause "a value outside the documented forms gives a warning at parse time and
+    nothing from the accessor" for YAML front matter. -/
+theorem C13_front_matter_warning_iff_nothing {α : Type} [Arith α] (fe : FM.Env α) (yamlStart : Nat) (text : Str)
+    (k : StdKey) (m : List (Y × Y)) (v : Y) (hv : metaGet k m = some v) :
+    (Y.str k.canon, v) ∈ m ∧
+    (FM.entryWarning fe yamlStart text (Y.str k.canon, v) =
+        [⟨.warning, .analysis, "std-unsupported-value", FM.keyLabels yamlStart text (Y.str k.canon)⟩] ↔
+      metaGives fe.conv fe.alpha k m = false) ∧
+    (FM.entryWarning fe yamlStart text (Y.str k.canon, v) = [] ↔ metaGives fe.conv fe.alpha k m = true) := by
+  have hw := C13_metadata_warning_iff_nothing fe.conv fe.alpha k m v hv
+  refine ⟨FM.fmx_mapGet_mem hv, ?_, ?_⟩
+  · unfold FM.entryWarning
+    simp only [asStr]
+    by_cases he : entryWarns fe.conv fe.alpha k.canon v = true
+    · simp [he, hw.mp he]
+    · have hg : metaGives fe.conv fe.alpha k m = true := by
+        cases hx : metaGives fe.conv fe.alpha k m with
+        | true => rfl
+        | false => exact absurd (hw.mpr hx) he
+      simp [he, hg]
+  · unfold FM.entryWarning
+    simp only [asStr]
+    by_cases he : entryWarns fe.conv fe.alpha k.canon v = true
+    · simp [he, hw.mp he]
+    · have hg : metaGives fe.conv fe.alpha k m = true := by
+        cases hx : metaGives fe.conv fe.alpha k m with
+        | true => rfl
+        | false => exact absurd (hw.mpr hx) he
+      simp [he, hg]
+
+/-! non-vacuity: `time: 60⏎prep time: []⏎` at offset 4 with the empty converter and no validator: `time`
+    is accepted, `prep time` is refused (one warning labelled at its line, byte 4 + 9), and the time
+    warning follows with the labels of `prep time` and `time` -/
+def C13_exFm : FM.Env Rat :=
+  ⟨fun _ => .ok [(.str "time".toList, .num ⟨some 60, "60".toList⟩), (.str "prep time".toList, .seq [])],
+   none, emptyConv, fun _ => false⟩
+
+example : (FM.processFrontmatter C13_exFm (Text.fromStr "time: 60\nprep time: []\n".toList 4)).diags =
+    [⟨.warning, .analysis, "std-unsupported-value", [⟨13, 13⟩]⟩,
+     ⟨.warning, .analysis, "time-overridden-fm", [⟨13, 13⟩, ⟨4, 4⟩]⟩] := by decide
+example : (metaGet .prepTime [(Y.str "time".toList, Y.num ⟨some 60, "60".toList⟩), (Y.str "prep time".toList, Y.seq [])]).isSome =
+    true := by decide
 
 end Cook
